@@ -214,6 +214,12 @@ class Run:
         with open(tmp, "w") as f:
             json.dump(ev, f, indent=1, default=repr)
         os.replace(tmp, path)
+        if self.tier == "thorough":
+            # keep a copy of the deepest run next to the per-property file (which the next quick run rewrites)
+            tdir = os.path.join(EVIDENCE_DIR, "thorough")
+            os.makedirs(tdir, exist_ok=True)
+            with open(os.path.join(tdir, f"{self.pid}.json"), "w") as f:
+                json.dump(ev, f, indent=1, default=repr)
         summary = {k: cov.get(k) for k in ("states", "transitions", "traces_validated_against_impl",
                                            "evaluations", "distinct_nontrivial", "exhaustive") if k in cov}
         print(f"[{self.pid}] tier={self.tier} seed={self.seed} wall={wall:.1f}s violations={self.violation_count} "
